@@ -21,6 +21,8 @@ func main() {
 		cmdVerify(os.Args[2:])
 	case "check":
 		cmdCheck(os.Args[2:])
+	case "replay":
+		cmdReplay(os.Args[2:])
 	case "locals":
 		// development: print the `locals` line of every function under contract
 		w, err := loadWorld("/repo", "/verif")
@@ -182,4 +184,8 @@ func cmdVerify(args []string) {
 		}
 	}
 	fmt.Printf("%d/%d discharged, %.1fs\n", nOK, len(res), time.Since(t0).Seconds())
+	lastVerifyOK, lastVerifyTotal = nOK, len(res)
 }
+
+// the outcome of the last cmdVerify call (used by `replay`)
+var lastVerifyOK, lastVerifyTotal int
